@@ -39,6 +39,17 @@ struct Val {
 #endif
 };
 
+// A value of ANOTHER type that converts to the element, as a double converts to an int: `half` is lost by the conversion. Ranges of such values
+// are legitimate range arguments (std::vector / std::set construct the element from each value first).
+struct Proto {
+  int key;
+  unsigned pay;
+  int half;
+  operator int() const { return key; }
+  operator double() const;  // defined below: the same encoding of -0.0 / NaN as the double elements of the harness
+};
+inline Val val_of_proto(const Proto &p) { return Val(p.key, p.pay); }
+
 struct InjectedFault {
   int at;
 };
@@ -189,6 +200,13 @@ struct Tracked : std::conditional<KIND == 0, DeclaresRelocatable, DeclaresNothin
     pay = static_cast<uint32_t>(il.size());
     born(EV_VCTOR);
   }
+  // converting construction from a value of another type (ranges of Proto)
+  Tracked(const Proto &p) {
+    fault_point();
+    key = p.key;
+    pay = p.pay;
+    born(EV_VCTOR);
+  }
   // construction "from a reference to an element" (C10 emplace(pos, &v[src]))
   explicit Tracked(const Tracked *p) {
     fault_point();
@@ -331,6 +349,7 @@ struct TC4 {
   TC4() = default;
   TC4(int k, unsigned p) : key(static_cast<int16_t>(k)), pay(static_cast<uint16_t>(p)) {}
   TC4(std::initializer_list<long long> il) : key(-4242), pay(static_cast<uint16_t>(il.size())) {}  // selected by T{k, p}: emplace must direct-initialise
+  TC4(const Proto &p) : key(static_cast<int16_t>(p.key)), pay(static_cast<uint16_t>(p.pay)) {}
   explicit TC4(const TC4 *p) : key(p->key), pay(p->pay) {}
   bool operator==(const TC4 &o) const { return key == o.key; }
   bool operator!=(const TC4 &o) const { return key != o.key; }
@@ -346,6 +365,7 @@ struct TC1 {
   uint8_t b;  // key in the low 3 bits, payload in the high 5
   TC1() = default;
   TC1(int k, unsigned p) : b(static_cast<uint8_t>((k & 7) | ((p & 31) << 3))) {}
+  TC1(const Proto &p) : b(static_cast<uint8_t>((p.key & 7) | ((p.pay & 31) << 3))) {}
   explicit TC1(const TC1 *p) : b(p->b) {}
   int k() const { return b & 7; }
   bool operator==(const TC1 &o) const { return k() == o.k(); }
@@ -364,6 +384,7 @@ struct TC12 {
   uint32_t chk;  // == ~pay for every value the harness created or that was default-initialised to zero with pay 0
   TC12() = default;
   TC12(int k, unsigned p) : key(k), pay(p), chk(~p) {}
+  TC12(const Proto &p) : key(p.key), pay(p.pay), chk(~p.pay) {}
   explicit TC12(const TC12 *p) : key(p->key), pay(p->pay), chk(p->chk) {}
   bool operator==(const TC12 &o) const { return key == o.key; }
   bool operator!=(const TC12 &o) const { return key != o.key; }
@@ -382,6 +403,7 @@ struct TC8 {
   TC8() = default;
   TC8(int k, unsigned p) : key(k), pay(p) {}
   TC8(std::initializer_list<long long> il) : key(-4242), pay(static_cast<uint32_t>(il.size())) {}  // selected by T{k, p}: emplace must direct-initialise
+  TC8(const Proto &p) : key(p.key), pay(p.pay) {}
   explicit TC8(const TC8 *p) : key(p->key), pay(p->pay) {}
   bool operator==(const TC8 &o) const { return key == o.key; }
   bool operator!=(const TC8 &o) const { return key != o.key; }
@@ -400,6 +422,7 @@ struct alignas(16) TC16A {
   uint32_t pay;
   TC16A() = default;
   TC16A(int k, unsigned p) : key(k), pay(p) {}
+  TC16A(const Proto &p) : key(p.key), pay(p.pay) {}
   explicit TC16A(const TC16A *p) : key(p->key), pay(p->pay) {}
   bool operator==(const TC16A &o) const { return key == o.key; }
   bool operator!=(const TC16A &o) const { return key != o.key; }
@@ -417,6 +440,7 @@ struct K1 {
   uint8_t k;
   K1() = default;
   K1(int key, unsigned) : k(static_cast<uint8_t>(key)) {}
+  K1(const Proto &p) : k(static_cast<uint8_t>(p.key)) {}
   bool operator==(const K1 &o) const { return k == o.k; }
   bool operator!=(const K1 &o) const { return k != o.k; }
   bool operator<(const K1 &o) const { return k < o.k; }
@@ -431,6 +455,7 @@ struct K2 {
   int16_t k;
   K2() = default;
   K2(int key, unsigned) : k(static_cast<int16_t>(key)) {}
+  K2(const Proto &p) : k(static_cast<int16_t>(p.key)) {}
   bool operator==(const K2 &o) const { return k == o.k; }
   bool operator!=(const K2 &o) const { return k != o.k; }
   bool operator<(const K2 &o) const { return k < o.k; }
@@ -535,6 +560,8 @@ struct EI<double> {
   static Val norm(Val v) { return v.key == 5 || v.key == kNaNKey ? Val(kNaNKey, 0) : v.key == 0 ? Val(0, v.pay & 1u) : Val(v.key, 0); }
   static E encode(Val v) { return v.key == 5 || v.key == kNaNKey ? std::nan("") : v.key == 0 ? ((v.pay & 1u) ? -0.0 : 0.0) : static_cast<double>(v.key); }
 };
+
+inline Proto::operator double() const { return EI<double>::encode(Val(key, pay)); }
 
 // construction of an element from a model value: by (key, payload) constructor for the class types, by value for raw arithmetic types
 template <class E, bool A = std::is_arithmetic<E>::value>
